@@ -25,6 +25,8 @@ structure Written where
   time : Nat
   line : String
   cause : Cause
+  /-- interval with which the wait that follows this write begins (0 = blocking) -/
+  nextK : Nat
 deriving Repr, DecidableEq
 
 structure SState where
@@ -48,7 +50,7 @@ def fireUntil (fuel : Nat) (s : SState) (te : Nat) (incl : Bool) : SState × Lis
     if d < te ∨ (incl ∧ d = te) then
       let s' : SState := { s with ws := d, wk := s.k }
       let (s'', out) := fireUntil fuel s' te incl
-      (s'', ⟨d, "KEEPALIVE", .timeout s.ws s.wk⟩ :: out)
+      (s'', ⟨d, "KEEPALIVE", .timeout s.ws s.wk, s.k⟩ :: out)
     else (s, [])
 
 /-- one environment event at time `te` (events are processed in order; `tieTimeoutFirst` decides a deadline
@@ -58,8 +60,8 @@ def onEvent (tieTimeoutFirst : Bool) (s : SState) (te : Nat) (a : SAct) : SState
   if s1.stopped then (s1, out1) else
   match a with
   | .setK k => ({ s1 with k := k }, out1)
-  | .put m => ({ s1 with ws := te, wk := s1.k }, out1 ++ [⟨te, m, .msg⟩])
-  | .pill => ({ s1 with ws := te, wk := s1.k }, out1 ++ [⟨te, "KEEPALIVE", .pill⟩])
+  | .put m => ({ s1 with ws := te, wk := s1.k }, out1 ++ [⟨te, m, .msg, s1.k⟩])
+  | .pill => ({ s1 with ws := te, wk := s1.k }, out1 ++ [⟨te, "KEEPALIVE", .pill, s1.k⟩])
   | .stop => ({ s1 with stopped := true }, out1)
 
 def runEvents (tie : Bool) (s : SState) : List (Nat × SAct) → SState × List Written
